@@ -133,21 +133,60 @@ theorem results_stored (s : LState) (a : Ans) (h : (step s a).pc = .finAll) :
 
 /-! ### counters -/
 
-/-- **Counters.** After `mark_running_job_as_stopped` no trial counts as running, and the
-counters partition the started trials: started = completed + failed + stopped + stopping + paused. -/
+/-- a list of statuses without `in_progress` splits into the five remaining classes -/
+theorem partition_statuses (l : List (Nat × St)) (h : ∀ kv ∈ l, kv.2 ≠ .inProgress) :
+    l.length = l.countP (fun kv => kv.2 == .completed) + l.countP (fun kv => kv.2 == .failed)
+      + l.countP (fun kv => kv.2 == .stopped) + l.countP (fun kv => kv.2 == .stopping)
+      + l.countP (fun kv => kv.2 == .paused) := by
+  induction l with
+  | nil => rfl
+  | cons kv l ih =>
+    have ih' := ih (fun x hx => h x (List.mem_cons_of_mem _ hx))
+    have hkv := h kv List.mem_cons_self
+    obtain ⟨k, v⟩ := kv
+    simp only [List.countP_cons, List.length_cons]
+    cases v
+    · exact absurd rfl hkv
+    all_goals (simp only [beq_self_eq_true, if_true, show (St.paused == St.completed) = false from rfl,
+      show (St.paused == St.failed) = false from rfl, show (St.paused == St.stopped) = false from rfl,
+      show (St.paused == St.stopping) = false from rfl, show (St.stopped == St.completed) = false from rfl,
+      show (St.stopped == St.failed) = false from rfl, show (St.stopped == St.stopping) = false from rfl,
+      show (St.stopped == St.paused) = false from rfl, show (St.stopping == St.completed) = false from rfl,
+      show (St.stopping == St.failed) = false from rfl, show (St.stopping == St.stopped) = false from rfl,
+      show (St.stopping == St.paused) = false from rfl, show (St.completed == St.failed) = false from rfl,
+      show (St.completed == St.stopped) = false from rfl, show (St.completed == St.stopping) = false from rfl,
+      show (St.completed == St.paused) = false from rfl, show (St.failed == St.completed) = false from rfl,
+      show (St.failed == St.stopped) = false from rfl, show (St.failed == St.stopping) = false from rfl,
+      show (St.failed == St.paused) = false from rfl, Bool.false_eq_true, if_false]; omega)
+
+/-- **Counters.** After `mark_running_job_as_stopped` no trial counts as running, the number of
+started trials is unchanged, and the counters partition the started trials:
+started = completed + failed + stopped + stopping + paused. -/
 theorem counters (ts : TStatus) :
     ts.markStopped.numRunning = 0 ∧
     ts.markStopped.numStarted = ts.numStarted ∧
     ts.markStopped.numStarted =
       ts.markStopped.numCompleted + ts.markStopped.numFailed + ts.markStopped.numIn (· == .stopped)
       + ts.markStopped.numIn (· == .stopping) + ts.markStopped.numIn (· == .paused) := by
-  unfold TStatus.markStopped TStatus.numRunning TStatus.numStarted TStatus.numCompleted TStatus.numFailed TStatus.numIn
-  simp only []
-  induction ts.last with
-  | nil => simp
-  | cons kv l ih =>
-    obtain ⟨ih1, ih2, ih3⟩ := ih
-    obtain ⟨k, v⟩ := kv
-    cases v <;> simp_all [List.filter_cons] <;> omega
+  have hno : ∀ kv ∈ ts.markStopped.last, kv.2 ≠ .inProgress := by
+    intro kv hkv
+    unfold TStatus.markStopped at hkv
+    simp only [List.mem_map] at hkv
+    obtain ⟨x, _, rfl⟩ := hkv
+    simp only []
+    split
+    · exact fun hc => nomatch hc
+    · assumption
+  refine ⟨?_, ?_, ?_⟩
+  · unfold TStatus.numRunning TStatus.numIn
+    rw [List.length_eq_zero_iff, List.filter_eq_nil_iff]
+    intro kv hkv
+    have := hno kv hkv
+    simp only [beq_iff_eq]
+    exact this
+  · unfold TStatus.numStarted TStatus.markStopped; simp
+  · unfold TStatus.numStarted TStatus.numCompleted TStatus.numFailed TStatus.numIn
+    simp only [← List.countP_eq_length_filter]
+    exact partition_statuses _ hno
 
 end SyneTune.C12
